@@ -238,6 +238,13 @@ func c10Specs(tier string) []*h.SeqSpec {
 			Ops:  ops,
 			Probe: func(w *h.World) []h.Violation {
 				var vs []h.Violation
+				// the probe's own requests take no virtual time: otherwise content ages past the grace period between the
+				// collection pass below and the Close of the restart comparison, and Close rightly collects it
+				if w.Conf.Step > 0 {
+					step := w.Conf.Step
+					w.Conf.Step = 0
+					defer func() { w.Conf.Step = step }()
+				}
 				for _, r := range c10Repos {
 					vs = append(vs, c10ValidateLayout(w, f, r, items, tags)...)
 				}
@@ -309,6 +316,22 @@ func onlyLoss(a, b string) bool {
 		n++
 		if strings.HasPrefix(al[i], "referrers ") && strings.HasSuffix(bl[i], "-> []") {
 			continue
+		}
+		if strings.HasPrefix(al[i], "tags -> 200 [") && strings.HasPrefix(bl[i], "tags -> 200 [") {
+			// the side that kept the content also accepted a later push that needed it: its tag list is a superset
+			sup := true
+			have := map[string]bool{}
+			for _, t := range strings.Fields(strings.Trim(strings.TrimPrefix(al[i], "tags -> 200 "), "[]")) {
+				have[t] = true
+			}
+			for _, t := range strings.Fields(strings.Trim(strings.TrimPrefix(bl[i], "tags -> 200 "), "[]")) {
+				if !have[t] {
+					sup = false
+				}
+			}
+			if sup {
+				continue
+			}
 		}
 		if !(strings.Contains(al[i], "-> 200 ") && strings.Contains(bl[i], "-> 404 ")) {
 			return false
